@@ -98,3 +98,62 @@ package counts
 //@ iface Humanable.ToUint64
 //@   pure
 //@   ensures result0 == hval(self) && result1 == hovf(self)
+
+// ---------------------------------------------------------------- human.go (C12, C05 presentation)
+// validHumaner: the prefix table is non-empty, starts at multiplier 1 and is
+// strictly increasing. It is established for Metric and Binary by the package
+// initialiser (contract of init below; neither variable is assigned anywhere
+// else) and is what makes h.prefixes[0] and n / p.Multiplier panic-free.
+//@ spec validHumaner(h *Humaner) bool = len(h.prefixes) == 6 && h.prefixes[0].Multiplier == 1 && all(j, 0, 5, h.prefixes[j].Multiplier < h.prefixes[j+1].Multiplier)
+
+//@ func init
+//@   requires !init$guard
+//@   modifies everything
+//@   ensures validHumaner(&Metric) && validHumaner(&Binary)
+//@   ensures Metric.prefixes[1].Multiplier == 1000 && Metric.prefixes[2].Multiplier == 1000000 && Metric.prefixes[3].Multiplier == 1000000000 && Metric.prefixes[4].Multiplier == 1000000000000 && Metric.prefixes[5].Multiplier == 1000000000000000
+//@   ensures Binary.prefixes[1].Multiplier == 1024 && Binary.prefixes[2].Multiplier == 1048576 && Binary.prefixes[3].Multiplier == 1073741824 && Binary.prefixes[4].Multiplier == 1099511627776 && Binary.prefixes[5].Multiplier == 1125899906842624
+
+// From C12: the prefix is the largest one not exceeding the value (E1-E3),
+// values below the first prefix are printed exactly ("%d"), at least three
+// significant digits when a prefix is used (decimals chosen from the whole
+// part), unit string = prefix name + unit. The table has six entries (both
+// Metric and Binary), so the quantifiers over table indices are finite
+// conjunctions (all(j, lo, hi, ...)) and every query is quantifier-free.
+//@ func (*Humaner).FormatNumber
+//@   requires validHumaner(h)
+//@   pure
+//@   loop 0 invariant -1 <= rangeindex && rangeindex < 6
+//@   loop 0 invariant prefix.Multiplier >= 1 && wholePart == n / prefix.Multiplier
+//@   loop 0 invariant prefix.Multiplier <= n || prefix.Multiplier == 1
+//@   loop 0 invariant all(j, 0, 6, j <= rangeindex && h.prefixes[j].Multiplier <= n ==> h.prefixes[j].Multiplier <= prefix.Multiplier)
+//@   loop 0 invariant all(j, 0, 6, j <= rangeindex && h.prefixes[j].Multiplier <= n && (j == rangeindex || h.prefixes[j+1].Multiplier > n) ==> same(*prefix, h.prefixes[j]))
+//@   loop 0 invariant rangeindex == -1 || h.prefixes[0].Multiplier > n ==> same(*prefix, h.prefixes[0])
+//@   ensures all(j, 0, 6, h.prefixes[j].Multiplier <= n ==> h.prefixes[j].Multiplier <= prefix.Multiplier)
+//@   ensures prefix.Multiplier <= n || (n == 0 && prefix.Multiplier == 1)
+//@   ensures all(j, 0, 6, h.prefixes[j].Multiplier <= n && (j == 5 || h.prefixes[j+1].Multiplier > n) ==> same(*prefix, h.prefixes[j]))
+//@   ensures wholePart == n / prefix.Multiplier
+//@   ensures prefix.Multiplier == 1 ==> same(unitString, unit)
+//@   ensures prefix.Multiplier != 1 ==> keyof(unitString) == catkey(keyof(prefix.Name), keyof(unit))
+//@   ensures prefix.Multiplier != 1 && wholePart >= 100 ==> format == "%.0f"
+//@   ensures prefix.Multiplier != 1 && wholePart >= 10 && wholePart < 100 ==> format == "%.1f"
+//@   ensures prefix.Multiplier != 1 && wholePart < 10 ==> format == "%.2f"
+
+//@ func (*Humaner).Format
+//@   requires validHumaner(h)
+//@   pure
+//@   ensures hovf(value) ==> numeral == "∞" && same(unitString, unit)
+
+// Commutation ("swap") lemmas: every accumulation step of package sizes has
+// the form field' = plus(field, v) or field' = umax(field, v) with v depending
+// only on the object being recorded, so two steps commute on every numeric
+// field (C09: the numbers do not depend on the delivery order).
+//@ lemma plus32_swap: forall s, a, b Count32 :: plus32(plus32(s, a), b) == plus32(plus32(s, b), a)
+//@ lemma plus64_swap: forall s, a, b Count64 :: plus64(plus64(s, a), b) == plus64(plus64(s, b), a)
+//@ lemma umax32_swap: forall s, a, b Count32 :: umax32(umax32(s, a), b) == umax32(umax32(s, b), a)
+//@ lemma umax64_swap: forall s, a, b Count64 :: umax64(umax64(s, a), b) == umax64(umax64(s, b), a)
+//@ lemma plus32_is_sat: forall a, b Count32 :: wide(plus32(a, b)) == sat32(wide(a) + wide(b))
+//@ lemma plus64_is_sat: forall a, b Count64 :: wide(plus64(a, b)) == sat64(wide(a) + wide(b))
+
+//@ property C12: init (*Humaner).FormatNumber (*Humaner).Format
+//@ property C05: (*Humaner).Format Humanable.ToUint64 lemma/plus32_is_sat lemma/plus64_is_sat
+//@ property C09: lemma/plus32_swap lemma/plus64_swap lemma/umax32_swap lemma/umax64_swap lemma/plus32_comm lemma/plus32_assoc lemma/plus64_comm lemma/plus64_assoc lemma/umax32_comm lemma/umax32_assoc lemma/umax64_comm lemma/umax64_assoc
